@@ -293,6 +293,7 @@ class BasicRulesInContext(Contract):
         if "debug" in parts:
             kw["debug"] = True
             ps.TaskStartAfter(task=a, value=P.int("v2"))
+        kw["verbosity"] = P.int("verbosity")  # any verbosity: what is printed must not change what is asserted
         solver = ps.SchedulingSolver(problem=pb, **kw)
         solver.initialize()
         return dict(pb=pb, tasks=tasks, workers=workers, solver=solver, w=w)
